@@ -194,6 +194,49 @@ def _history_case(case):
                     if len(v) < 5:
                         v.append(viol("C03/history/" + ("same-type-other-group" if a[:4] == b[:4] else "other-instance"), msg, case=case, history=[list(map(str, a)), list(map(str, b))]))
                     break
+    # the assembling entry points under the same history discipline: groups of EQUAL ORDER (4: C4, C2^d; 2: flip0, swap,
+    # rot180) asked for the same (D, M, k, p) one after the other in one process, each ordered pair as a, b, a
+    def check_assembled(gname, when):
+        grp = G.named_groups(2)[gname]
+        ops = [np.array(g) for g in grp]
+        fd, _ = geom.get_invariant_filters_dict([3], [0, 1], [0, 1], 2, ops)
+        mi = geom.get_invariant_filters([3], [0, 1], [0, 1], 2, ops)
+        fl = geom.get_invariant_filters_list([3], [0, 1], [0, 1], 2, ops)
+        total = 0
+        for k in (0, 1):
+            for p in (0, 1):
+                dim = G.burnside_dim(grp, 3, k, p, 2)
+                total += dim
+                fam = fd.get((2, 3, k, p), [])
+                if len(fam) != dim:
+                    return f"{when}: get_invariant_filters_dict gives {len(fam)} filters of type {(k, p)} for {gname}, dimension is {dim}"
+                blk = np.asarray(mi[(k, p)]) if (k, p) in mi else np.zeros((0,))
+                if (dim == 0) != ((k, p) not in mi) or (dim and blk.shape[0] != dim):
+                    return f"{when}: get_invariant_filters block {(k, p)} for {gname} has {blk.shape[0] if dim else 'a'} filters, dimension is {dim}"
+                for dat in [np.asarray(f.data) for f in fam] + ([b for b in blk] if dim else []):
+                    for g in grp:
+                        if not np.array_equal(ref_action(dat, p, g, 2), dat):
+                            return f"{when}: an assembled filter of type {(k, p)} for {gname} is not invariant under {gname}"
+        if len(fl) != total:
+            return f"{when}: get_invariant_filters_list gives {len(fl)} filters for {gname}, expected {total}"
+        return None
+
+    same_order = ["C4", "C2^d", "flip0", "swap", "rot180"]
+    for a in same_order:
+        for b in same_order:
+            if a == b:
+                continue
+            for name in dir(common):
+                obj = getattr(common, name)
+                if isinstance(obj, dict) and "cache" in name.lower():
+                    obj.clear()
+            for gname, when in ((a, "first call"), (b, f"after {a}"), (a, f"after {a},{b}")):
+                evals += 1
+                msg = check_assembled(gname, when)
+                if msg:
+                    if len(v) < 5:
+                        v.append(viol("C03/history/assemblers", msg, case=case, history=[a, b]))
+                    break
     return {"violations": v, "nt": True, "evals": evals, "outcome": "history"}
 
 
